@@ -46,10 +46,12 @@ ASSUMPTIONS = [
 REQUIRED_PROBES = {
     "quick": ["failed_then_later_checked", "require_after_failed_require",
               "faulted_require_then_retry", "cached_module_path",
-              "two_instances", "scratch_env", "repeat_checked"],
+              "two_instances", "scratch_env", "repeat_checked",
+              "env_moved_between_instances"],
     "thorough": ["failed_then_later_checked", "require_after_failed_require",
                  "faulted_require_then_retry", "cached_module_path",
-                 "two_instances", "scratch_env", "repeat_checked"],
+                 "two_instances", "scratch_env", "repeat_checked",
+                 "env_moved_between_instances"],
 }
 
 SYNTAX_ERRORS = ["def x_bad = ;", "1 +", "do 1; 2", "def = 5", "[1, 2",
@@ -198,7 +200,9 @@ def gen_case(rng, tier, k):
                        ["def", "val", -1], ["def", "shadow", 1]]
             files[f"{d}/{mid}.ckl"] = {"ir": ir2}
 
+    share_env = two and rng.random() < 0.5
     case = {"config": {"instances": insts, "store": store,
+                       "share_env": share_env,
                        "prng": round(rng.random(), 6)},
             "files": files, "ops": []}
 
@@ -215,9 +219,10 @@ def gen_case(rng, tier, k):
         m = gm[inst]
         if env is None:
             return m.session
-        key = inst + ":" + env
+        key = env if share_env else inst + ":" + env
         if key not in envs:
             envs[key] = lang.Scope(m.session, "scratch")
+        envs[key].parent = m.session
         return envs[key]
 
     def known(scope, prefix, want=None):
@@ -325,6 +330,12 @@ def gen_case(rng, tier, k):
 
     def gen_require(scope):
         mid = rng.choice(allmods)
+        if two and rng.random() < 0.4:
+            # prefer what some instance has already loaded: the other one
+            # must load its own copy
+            seen = sorted(set(x for mm in gm.values() for x in mm.loaded))
+            if seen:
+                mid = rng.choice(seen)
         form = rng.choice(["plain", "plain", "as", "unq", "imp"])
         spec = {"id": mid} if rng.random() < 0.8 else {"str": mid}
         extra = None
@@ -565,13 +576,17 @@ def run_case(case, root):
                 mscope = m.session
                 senv = None
             else:
-                key = inst + ":" + envname
+                key = envname if cfg.get("share_env") else \
+                    inst + ":" + envname
+                if key in envs_m and envs_m[key].parent is not m.session:
+                    probes["env_moved_between_instances"] = 1
                 if key not in envs_m:
                     from ckl.functions import Environment
                     envs_m[key] = lang.Scope(m.session, "scratch")
                     envs_s[key] = Environment()
                     probes["scratch_env"] = 1
                 mscope = envs_m[key]
+                mscope.parent = m.session
                 senv = envs_s[key]
             if kind == "ls":
                 out = sim.run(idx, inst, [], lambda: it.interpret(
